@@ -159,6 +159,7 @@ def failure_detection(ctx, prog):
         ctx.report('read-failure-undetected', f"read loop: {str(v6[0])[:300]}; natively confirmed by the segmentation / terminal-event differential", {'solver_counterexamples': [str(v)[:400] for v in v6[:4]]},
                    c06.NATIVE_DIFF, inject_into='src/frame_buffer.rs', profiles=('dev',), hang_is_violation=True, panic_is_violation=True)
     c08.eof_before_closeok(ctx, prog)
+    c08.close_reports_the_cause(ctx, prog)    # Connection::close hands the caller the I/O thread's root cause, not its own failed request
     v17 = []
     c17.process_timers(ctx, prog, v17)
     c17.several_expiries(ctx, prog, v17)
